@@ -1046,14 +1046,11 @@ impl Probe {
         but the rrtypes differ, the record with the lower rrtype number comes
         first."
          */
+        // Records of the same class and type are ordered by their rdata, so that
+        // both probers compare the same pairs (class, type, then rdata).
         let insert_position = self
             .records
-            .binary_search_by(
-                |existing| match existing.get_class().cmp(&record.get_class()) {
-                    std::cmp::Ordering::Equal => existing.get_type().cmp(&record.get_type()),
-                    other => other,
-                },
-            )
+            .binary_search_by(|existing| existing.compare(record.as_ref()))
             .unwrap_or_else(|pos| pos);
 
         self.records.insert(insert_position, record);
@@ -1070,11 +1067,14 @@ impl Probe {
             return;
         }
 
-        let incoming: Vec<_> = msg
+        let mut incoming: Vec<_> = msg
             .authorities()
             .iter()
             .filter(|r| r.get_name() == probe_name)
             .collect();
+        // Same order as our own records (see `insert_record`), whatever order
+        // the other host wrote them in.
+        incoming.sort_by(|a, b| a.compare(b.as_ref()));
         /*
         RFC 6762 section 8.2: https://datatracker.ietf.org/doc/html/rfc6762#section-8.2
         ...
